@@ -465,6 +465,29 @@ def qDebug (r : Registry) : List (Key × List DebugProducer) :=
     (e.1, e.2.filterMap (fun pe => (mget r.peers pe.1).map
       (fun pr => ⟨pe.1, pr.lastUpdate, pe.2.tombstoned, pe.2.tombAt⟩))))
 
+/-! ## Critical sections (micro-steps)
+
+Each `RegistrationDB` method takes the lock by itself, so a handler that calls several methods
+is several critical sections; another connection's handler can run in between. The history
+model below treats a handler call as ONE step; these definitions name the real granularity for
+the two handlers where it matters (`Nsq.Props.C14`, section "Concurrency"). -/
+
+/-- UNREGISTER topic channel, first critical section: `RemoveProducer` (state, `left`) -/
+def unregChanStep1 (db : DB) (t c : Name) (p : Nat) : DB × Nat :=
+  (removeProducer db (chanKey t c) p, leftAfterRemove db (chanKey t c) p)
+
+/-- … second critical section: `RemoveRegistration` if nobody was left and the channel is ephemeral -/
+def unregChanStep2 (db : DB) (t c : Name) (left : Nat) : DB :=
+  if left = 0 && isEphemeral c then removeRegistration db (chanKey t c) else db
+
+/-- REGISTER topic channel: `AddProducer(channel key)`, then `AddProducer(topic key)` -/
+def regStep1 (db : DB) (t c : Name) (p : Nat) : DB := addProducer db (chanKey t c) p
+def regStep2 (db : DB) (t : Name) (p : Nat) : DB := addProducer db (topicKey t) p
+
+/-- `/topic/delete`: remove the channel keys, then (separately) the topic key -/
+def delTopicStep1 (db : DB) (t : Name) : DB := removeRegistrations db (findRegistrations db .channel t star)
+def delTopicStep2 (db : DB) (t : Name) : DB := removeRegistrations db (findRegistrations db .topic t [])
+
 /-! ## One step of a history -/
 
 inductive Op
